@@ -239,6 +239,11 @@ class Run:
     async def adversarial(self, i: int, op: list) -> None:
         w = self.w
         kind = op[0]
+        # whatever the honest nodes have due at this very instant (a ping round, the 5-second sweep that drops dead
+        # circuits, a pending reply) happens before the state is recorded, not during the adversarial step
+        await w.net.settle()
+        await asyncio.sleep(0)
+        await w.net.settle()
         live = [c for c in self.circuits if not c["dead"]]
         outsider = self.outsider
         if kind == "unknown_cell":
